@@ -3,3 +3,4 @@ pub mod zint;
 pub mod merkle;
 pub mod sponge;
 pub mod cfgpred;
+pub mod fri;
